@@ -23,10 +23,17 @@ structure QWf (e : Exec) : Prop where
 structure Inv (e : Exec) : Prop where
   q : QWf e
   t : ∀ id t, e.get? id = some t → TInv (inMap e id) t
-  /-- a cancelled task that is still in the queue is hot (it was scheduled by `Task::cancel`) -/
-  c : ∀ id t, e.get? id = some t → t.word.notCancelled = false → id ∈ e.cold → False
+  /-- a cancelled task that is still in the queue is hot or waits in the sync queue (it was scheduled by
+  `Task::cancel`): the next tick reaches it -/
+  c : ∀ id t, e.get? id = some t → t.word.notCancelled = false → id ∈ e.cold → id ∈ e.sync ∨ e.inflight = some id
+  /-- a queued task whose SCHEDULED bit is set (a cross-thread wake was accepted) is hot, or waits in the
+  sync queue, or is the id a blocked `Remote::schedule` is about to push -/
+  s : ∀ id t, e.get? id = some t → t.word.scheduled = true → id ∈ e.cold → id ∈ e.sync ∨ e.inflight = some id
   /-- after `Executor::drop` the queues are empty -/
   dead : e.alive = false → e.hot = [] ∧ e.cold = []
+  /-- `pending` is an upper bound of the ids in (or about to enter) the sync queue: the fast path of
+  `drain_sync` never skips one, and a reservation survives a drain -/
+  p : e.sync.length + (if e.inflight.isSome then 1 else 0) ≤ e.pending
 
 theorem inMap_iff (e : Exec) (id : Nat) : inMap e id = true ↔ id ∈ e.hot ∨ id ∈ e.cold := by
   simp [inMap]
@@ -159,12 +166,15 @@ theorem QStep.tick {e : Exec} (q : QWf e) {id : Nat} {rest : List Nat} (hh : e.h
 theorem Inv.update {e : Exec} (h : Inv e) {id : Nat} {t t' : TaskSt} {hot' cold' : List Nat}
     (hg : e.get? id = some t) (qs : QStep e.hot e.cold id hot' cold') (b : Bool)
     (hb : (id ∈ hot' ∨ id ∈ cold') ↔ b = true) (ht : TInv b t')
-    (hc : t'.word.notCancelled = false → id ∈ cold' → False)
     (e' : Exec) (e1 : e'.tasks = e.tasks.set id t') (e2 : e'.hot = hot') (e3 : e'.cold = cold')
-    (e4 : e'.alive = e.alive) : Inv e' := by
+    (e4 : e'.alive = e.alive)
+    (hc : t'.word.notCancelled = false → id ∈ cold' → id ∈ e'.sync ∨ e'.inflight = some id)
+    (hs : t'.word.scheduled = true → id ∈ cold' → id ∈ e'.sync ∨ e'.inflight = some id)
+    (hsyn : ∀ x, x ≠ id → x ∈ cold' → (x ∈ e.sync ∨ e.inflight = some x) → (x ∈ e'.sync ∨ e'.inflight = some x))
+    (hp : e'.sync.length + (if e'.inflight.isSome then 1 else 0) ≤ e'.pending) : Inv e' := by
   have hl := get?_lt hg
   have hlen : e'.tasks.length = e.tasks.length := by simp [e1]
-  refine ⟨⟨?_, ?_, ?_, ?_, ?_⟩, ?_, ?_, ?_⟩
+  refine ⟨⟨?_, ?_, ?_, ?_, ?_⟩, ?_, ?_, ?_, ?_, hp⟩
   · rw [e2]; exact qs.hnd
   · rw [e3]; exact qs.cnd
   · rw [e2, e3]; exact qs.disj
@@ -203,7 +213,18 @@ theorem Inv.update {e : Exec} (h : Inv e) {id : Nat} {t t' : TaskSt} {hot' cold'
       cases hx
       exact hc hnc hcold
     · rw [List.getElem?_set_ne (Ne.symm hxi)] at hx
-      exact h.c x tx hx hnc (qs.coldsub x hxi hcold)
+      exact hsyn x hxi hcold (h.c x tx hx hnc (qs.coldsub x hxi hcold))
+  · intro x tx hx hsc hcold
+    unfold Exec.get? at hx
+    rw [e1] at hx
+    rw [e3] at hcold
+    by_cases hxi : x = id
+    · subst hxi
+      rw [List.getElem?_set_self hl] at hx
+      cases hx
+      exact hs hsc hcold
+    · rw [List.getElem?_set_ne (Ne.symm hxi)] at hx
+      exact hsyn x hxi hcold (h.s x tx hx hsc (qs.coldsub x hxi hcold))
   · intro ha
     rw [e4] at ha
     obtain ⟨d1, d2⟩ := h.dead ha
@@ -218,6 +239,405 @@ theorem Inv.update {e : Exec} (h : Inv e) {id : Nat} {t t' : TaskSt} {hot' cold'
       have := qs.sub x (Or.inr hx)
       simp [d1, d2] at this
 
+theorem get?_setTask_self {e : Exec} {id : Nat} {t : TaskSt} (t' : TaskSt) (h : e.get? id = some t) :
+    (e.setTask id t').get? id = some t' := by
+  simp [Exec.get?, Exec.setTask, List.getElem?_set_self (get?_lt h)]
+
+theorem get?_setTask_ne (e : Exec) {id x : Nat} (t' : TaskSt) (h : x ≠ id) :
+    (e.setTask id t').get? x = e.get? x := by
+  simp [Exec.get?, Exec.setTask, List.getElem?_set_ne (Ne.symm h)]
+
+theorem tasks_set_same {e : Exec} {id : Nat} {t : TaskSt} (hg : e.get? id = some t) : e.tasks.set id t = e.tasks := by
+  apply List.ext_getElem?
+  intro i
+  by_cases hi : id = i
+  · subst hi; rw [List.getElem?_set_self (get?_lt hg)]; exact hg.symm
+  · rw [List.getElem?_set_ne hi]
+
+/-- a step that moves task `id` between the queues without touching any task -/
+theorem Inv.requeue {e : Exec} (h : Inv e) {id : Nat} {t : TaskSt} {hot' cold' : List Nat}
+    (hg : e.get? id = some t) (qs : QStep e.hot e.cold id hot' cold')
+    (hb : (id ∈ hot' ∨ id ∈ cold') ↔ (id ∈ e.hot ∨ id ∈ e.cold))
+    (e' : Exec) (e1 : e'.tasks = e.tasks) (e2 : e'.hot = hot') (e3 : e'.cold = cold')
+    (e4 : e'.alive = e.alive) (e5 : e'.sync = e.sync) (e6 : e'.pending = e.pending)
+    (e7 : e'.inflight = e.inflight) (hc : id ∈ cold' → id ∈ e.cold) : Inv e' := by
+  refine h.update hg qs (inMap e id) (by rw [hb, inMap_iff]) (h.t id t hg) e'
+    (by rw [e1, tasks_set_same hg]) e2 e3 e4 ?_ ?_ ?_ (by rw [e5, e6, e7]; exact h.p)
+  · intro hn hcold; rw [e5, e7]; exact h.c id t hg hn (hc hcold)
+  · intro h1 hcold; rw [e5, e7]; exact h.s id t hg h1 (hc hcold)
+  · intro x _ _ hx; rw [e5, e7]; exact hx
+
+/-! ## `Shared::drain_sync` -/
+
+theorem makeHot_fields (e : Exec) (id : Nat) :
+    (makeHot e id).tasks = e.tasks ∧ (makeHot e id).woken = e.woken ∧ (makeHot e id).alive = e.alive ∧
+    (makeHot e id).sync = e.sync ∧ (makeHot e id).pending = e.pending ∧ (makeHot e id).cap = e.cap ∧
+    (makeHot e id).outstanding = e.outstanding ∧ (makeHot e id).inflight = e.inflight := by
+  unfold makeHot; split <;> simp
+
+/-- what a run of `make_hot` over a list of ids does to the queues -/
+theorem foldl_makeHot (l : List Nat) : ∀ (e : Exec), e.hot.Nodup → e.cold.Nodup →
+    (∀ x, x ∈ e.hot → x ∈ e.cold → False) →
+    ((l.foldl makeHot e).tasks = e.tasks ∧ (l.foldl makeHot e).woken = e.woken ∧
+      (l.foldl makeHot e).alive = e.alive ∧ (l.foldl makeHot e).sync = e.sync ∧
+      (l.foldl makeHot e).pending = e.pending ∧ (l.foldl makeHot e).cap = e.cap ∧
+      (l.foldl makeHot e).outstanding = e.outstanding ∧ (l.foldl makeHot e).inflight = e.inflight) ∧
+    (l.foldl makeHot e).hot.Nodup ∧ (l.foldl makeHot e).cold.Nodup ∧
+    (∀ x, x ∈ (l.foldl makeHot e).hot → x ∈ (l.foldl makeHot e).cold → False) ∧
+    (∃ w, (l.foldl makeHot e).hot = e.hot ++ w ∧ w.length ≤ l.length ∧ ∀ x, x ∈ w → x ∈ e.cold ∧ x ∈ l) ∧
+    (∀ x, x ∈ (l.foldl makeHot e).cold ↔ (x ∈ e.cold ∧ x ∉ l)) ∧
+    (∀ x, (x ∈ (l.foldl makeHot e).hot ∨ x ∈ (l.foldl makeHot e).cold) ↔ (x ∈ e.hot ∨ x ∈ e.cold)) := by
+  induction l with
+  | nil =>
+    intro e hh hc hd
+    exact ⟨⟨rfl, rfl, rfl, rfl, rfl, rfl, rfl, rfl⟩, hh, hc, hd, ⟨[], by simp, by simp, by simp⟩, by simp, by simp⟩
+  | cons a l ih =>
+    intro e hh hc hd
+    have hf := makeHot_fields e a
+    by_cases ha : a ∈ e.cold
+    · have hm : makeHot e a = { e with cold := e.cold.erase a, hot := e.hot ++ [a] } := by
+        simp [makeHot, ha]
+      have hnh : a ∉ e.hot := fun h1 => hd a h1 ha
+      have hh' : (makeHot e a).hot.Nodup := by
+        rw [hm]; simp only
+        rw [List.nodup_append]
+        refine ⟨hh, by simp, ?_⟩
+        intro x hx b hb
+        simp at hb; subst hb
+        intro hxb; subst hxb; exact hnh hx
+      have hc' : (makeHot e a).cold.Nodup := by rw [hm]; exact hc.erase a
+      have hd' : ∀ x, x ∈ (makeHot e a).hot → x ∈ (makeHot e a).cold → False := by
+        rw [hm]; simp only
+        intro x hx hx'
+        rw [hc.mem_erase_iff] at hx'
+        simp at hx
+        rcases hx with hx | hx
+        · exact hd x hx hx'.2
+        · exact hx'.1 hx
+      obtain ⟨f, i1, i2, i3, ⟨w, iw, iwl, iw'⟩, i5, i6⟩ := ih (makeHot e a) hh' hc' hd'
+      simp only [List.foldl_cons]
+      refine ⟨?_, i1, i2, i3, ?_, ?_, ?_⟩
+      · obtain ⟨f1, f2, f3, f4, f5, f6, f7, f8⟩ := f
+        obtain ⟨g1, g2, g3, g4, g5, g6, g7, g8⟩ := hf
+        exact ⟨f1.trans g1, f2.trans g2, f3.trans g3, f4.trans g4, f5.trans g5, f6.trans g6, f7.trans g7, f8.trans g8⟩
+      · refine ⟨a :: w, by rw [iw, hm]; simp, by simp; omega, ?_⟩
+        intro x hx
+        simp at hx
+        rcases hx with hx | hx
+        · subst hx; exact ⟨ha, by simp⟩
+        · have := iw' x hx
+          rw [hm] at this
+          exact ⟨List.mem_of_mem_erase this.1, by simp [this.2]⟩
+      · intro x
+        rw [i5 x, hm]; simp only
+        rw [hc.mem_erase_iff]
+        simp
+        constructor
+        · rintro ⟨⟨h1, h2⟩, h3⟩; exact ⟨h2, h1, h3⟩
+        · rintro ⟨h1, h2, h3⟩; exact ⟨⟨h2, h1⟩, h3⟩
+      · intro x
+        rw [i6 x, hm]; simp only
+        by_cases hxa : x = a
+        · subst hxa; simp [ha]
+        · simp [List.mem_erase_of_ne hxa, hxa]
+    · have hm : makeHot e a = e := by simp [makeHot, ha]
+      have := ih e hh hc hd
+      simp only [List.foldl_cons, hm]
+      obtain ⟨f, i1, i2, i3, ⟨w, iw, iwl, iw'⟩, i5, i6⟩ := this
+      refine ⟨f, i1, i2, i3, ⟨w, iw, by simp; omega, fun x hx => ⟨(iw' x hx).1, by simp [(iw' x hx).2]⟩⟩, ?_, i6⟩
+      intro x
+      rw [i5 x]
+      constructor
+      · rintro ⟨h1, h2⟩
+        refine ⟨h1, ?_⟩
+        simp
+        exact ⟨fun hxa => ha (hxa ▸ h1), h2⟩
+      · rintro ⟨h1, h2⟩
+        simp at h2
+        exact ⟨h1, h2.2⟩
+
+/-- facts about `drain_sync` in a state satisfying the invariant -/
+structure DrainFacts (e e' : Exec) : Prop where
+  tasks : e'.tasks = e.tasks
+  woken : e'.woken = e.woken
+  alive : e'.alive = e.alive
+  cap : e'.cap = e.cap
+  outstanding : e'.outstanding = e.outstanding
+  inflight : e'.inflight = e.inflight
+  sync : e'.sync = []
+  hot : ∃ w, e'.hot = e.hot ++ w ∧ w.length ≤ e.sync.length ∧ ∀ x, x ∈ w → x ∈ e.cold ∧ x ∈ e.sync
+  cold : ∀ x, x ∈ e'.cold ↔ (x ∈ e.cold ∧ x ∉ e.sync)
+  mem : ∀ x, (x ∈ e'.hot ∨ x ∈ e'.cold) ↔ (x ∈ e.hot ∨ x ∈ e.cold)
+  inv : Inv e'
+
+theorem drainSync_facts {e : Exec} (h : Inv e) : DrainFacts e (drainSync e) := by
+  by_cases hp : e.pending = 0
+  · have hs : e.sync = [] := by
+      have := h.p; rw [hp] at this
+      exact List.eq_nil_of_length_eq_zero (by omega)
+    have he : drainSync e = e := by simp [drainSync, hp]
+    rw [he]
+    exact ⟨rfl, rfl, rfl, rfl, rfl, rfl, hs, ⟨[], by simp, by simp, by simp⟩, by simp [hs], by simp, h⟩
+  · obtain ⟨⟨f1, f2, f3, f4, f5, f6, f7, f8⟩, i1, i2, i3, ⟨w, iw, iwl, iw'⟩, i5, i6⟩ :=
+      foldl_makeHot e.sync { e with sync := [] } h.q.hnd h.q.cnd h.q.disj
+    simp only at f1 f2 f3 f4 f5 f6 f7 f8 iw iw' i5 i6
+    have hfields : ∀ e'' : Exec, e'' = e.sync.foldl makeHot { e with sync := [] } →
+        ∀ pd : Nat, (if e.inflight.isSome then 1 else 0) ≤ pd → DrainFacts e { e'' with pending := pd } := by
+      intro e'' he'' pd hpd
+      subst he''
+      refine ⟨f1, f2, f3, f6, f7, f8, f4, ⟨w, iw, iwl, iw'⟩, i5, i6, ?_⟩
+      refine ⟨⟨i1, i2, i3, ?_, ?_⟩, ?_, ?_, ?_, ?_, ?_⟩
+      · intro x hx
+        show x < (e.sync.foldl makeHot { e with sync := [] }).tasks.length
+        rw [f1]
+        exact ((i6 x).mp (Or.inl hx)).elim (h.q.hval x) (h.q.cval x)
+      · intro x hx
+        show x < (e.sync.foldl makeHot { e with sync := [] }).tasks.length
+        rw [f1]
+        exact ((i6 x).mp (Or.inr hx)).elim (h.q.hval x) (h.q.cval x)
+      · intro x t hx
+        have hx' : e.get? x = some t := by
+          unfold Exec.get? at hx ⊢; simp only at hx; rw [f1] at hx; exact hx
+        have hm : inMap ({ e.sync.foldl makeHot { e with sync := [] } with pending := pd } : Exec) x = inMap e x := by
+          apply inMap_eq_of_iff; exact i6 x
+        rw [hm]; exact h.t x t hx'
+      · intro x t hx hn hc
+        have hx' : e.get? x = some t := by
+          unfold Exec.get? at hx ⊢; simp only at hx; rw [f1] at hx; exact hx
+        have := (i5 x).mp hc
+        rcases h.c x t hx' hn this.1 with h3 | h3
+        · exact absurd h3 this.2
+        · exact Or.inr (by show (e.sync.foldl makeHot { e with sync := [] }).inflight = some x; rw [f8]; exact h3)
+      · intro x t hx h1 hc
+        have hx' : e.get? x = some t := by
+          unfold Exec.get? at hx ⊢; simp only at hx; rw [f1] at hx; exact hx
+        have := (i5 x).mp hc
+        rcases h.s x t hx' h1 this.1 with h3 | h3
+        · exact absurd h3 this.2
+        · exact Or.inr (by show (e.sync.foldl makeHot { e with sync := [] }).inflight = some x; rw [f8]; exact h3)
+      · intro ha
+        have ha' : e.alive = false := by simp only at ha; rw [f3] at ha; exact ha
+        obtain ⟨d1, d2⟩ := h.dead ha'
+        constructor
+        · show (e.sync.foldl makeHot { e with sync := [] }).hot = []
+          rw [iw, d1]
+          cases w with
+          | nil => rfl
+          | cons a w => have := (iw' a (by simp)).1; rw [d2] at this; cases this
+        · apply List.eq_nil_iff_forall_not_mem.mpr
+          intro x hx
+          have := ((i5 x).mp hx).1
+          rw [d2] at this; cases this
+      · show (e.sync.foldl makeHot { e with sync := [] }).sync.length +
+            (if (e.sync.foldl makeHot { e with sync := [] }).inflight.isSome then 1 else 0) ≤ pd
+        rw [f4, f8]; simpa using hpd
+    unfold drainSync
+    simp only [hp, if_false]
+    by_cases hl : e.sync.length = 0
+    · simp only [hl, if_true]
+      have hpp := h.p
+      have := hfields _ rfl (e.sync.foldl makeHot { e with sync := [] }).pending (by rw [f5]; show (if e.inflight.isSome then 1 else 0) ≤ e.pending; omega)
+      simpa using this
+    · simp only [hl, if_false]
+      have hpp := h.p
+      exact hfields _ rfl _ (by rw [f5]; show (if e.inflight.isSome then 1 else 0) ≤ e.pending - e.sync.length; omega)
+
+theorem drainSync_inv {e : Exec} (h : Inv e) : Inv (drainSync e) := (drainSync_facts h).inv
+
+theorem drainSync_get? {e : Exec} (h : Inv e) (x : Nat) : (drainSync e).get? x = e.get? x := by
+  simp [Exec.get?, (drainSync_facts h).tasks]
+
+theorem drainSync_inMap {e : Exec} (h : Inv e) (x : Nat) : inMap (drainSync e) x = inMap e x :=
+  inMap_eq_of_iff _ _ _ _ ((drainSync_facts h).mem x)
+
+/-! ## `make_hot`, `Local::schedule`, `Remote::schedule` -/
+
+theorem makeHot_get? (e : Exec) (id x : Nat) : (makeHot e id).get? x = e.get? x := by
+  simp [Exec.get?, (makeHot_fields e id).1]
+
+theorem makeHot_cases (e : Exec) (id : Nat) :
+    (id ∉ e.cold ∧ makeHot e id = e) ∨
+    (id ∈ e.cold ∧ makeHot e id = { e with cold := e.cold.erase id, hot := e.hot ++ [id] }) := by
+  by_cases hc : id ∈ e.cold
+  · exact Or.inr ⟨hc, by simp [makeHot, hc]⟩
+  · exact Or.inl ⟨hc, by simp [makeHot, hc]⟩
+
+theorem makeHot_inv {e : Exec} (h : Inv e) (id : Nat) : Inv (makeHot e id) := by
+  rcases makeHot_cases e id with ⟨_, he⟩ | ⟨hc, he⟩
+  · rw [he]; exact h
+  · obtain ⟨t, hg, _⟩ := h.get_of_mem (id := id) (Or.inr hc)
+    rw [he]
+    refine h.requeue hg (QStep.makeHot h.q hc) ?_ _ rfl rfl rfl rfl rfl rfl rfl ?_
+    · simp [hc]
+    · intro hx; exact List.mem_of_mem_erase hx
+
+theorem makeHot_mem (e : Exec) (id x : Nat) :
+    (x ∈ (makeHot e id).hot ∨ x ∈ (makeHot e id).cold) ↔ (x ∈ e.hot ∨ x ∈ e.cold) := by
+  rcases makeHot_cases e id with ⟨_, he⟩ | ⟨hc, he⟩ <;> rw [he]
+  simp only [List.mem_append, List.mem_singleton]
+  by_cases hx : x = id
+  · subst hx; simp [hc]
+  · simp [List.mem_erase_of_ne hx, hx]
+
+theorem makeHot_hot (e : Exec) (id : Nat) : ∃ w, (makeHot e id).hot = e.hot ++ w := by
+  rcases makeHot_cases e id with ⟨_, he⟩ | ⟨hc, he⟩ <;> rw [he]
+  · exact ⟨[], by simp⟩
+  · exact ⟨[id], rfl⟩
+
+theorem makeHot_not_cold {e : Exec} (hn : e.cold.Nodup) (id : Nat) : id ∉ (makeHot e id).cold := by
+  rcases makeHot_cases e id with ⟨hc, he⟩ | ⟨hc, he⟩ <;> rw [he]
+  · exact hc
+  · intro hx; exact ((hn.mem_erase_iff).mp hx).1 rfl
+
+theorem makeHot_cold_sub (e : Exec) (id x : Nat) (hx : x ∈ (makeHot e id).cold) : x ∈ e.cold := by
+  rcases makeHot_cases e id with ⟨hc, he⟩ | ⟨hc, he⟩ <;> rw [he] at hx
+  · exact hx
+  · exact List.mem_of_mem_erase hx
+
+theorem scheduleLocal_cases (e : Exec) (id : Nat) :
+    scheduleLocal e id = e ∨ scheduleLocal e id = makeHot (drainSync e) id := by
+  unfold scheduleLocal
+  cases e.get? id with
+  | none => exact Or.inl rfl
+  | some t => simp only; cases t.shared <;> simp
+
+theorem scheduleLocal_inv {e : Exec} (h : Inv e) (id : Nat) : Inv (scheduleLocal e id) := by
+  rcases scheduleLocal_cases e id with he | he <;> rw [he]
+  · exact h
+  · exact makeHot_inv (drainSync_inv h) id
+
+theorem scheduleLocal_get? {e : Exec} (h : Inv e) (id x : Nat) : (scheduleLocal e id).get? x = e.get? x := by
+  rcases scheduleLocal_cases e id with he | he <;> rw [he]
+  rw [makeHot_get?, drainSync_get? h]
+
+theorem scheduleLocal_fields {e : Exec} (h : Inv e) (id : Nat) :
+    (scheduleLocal e id).tasks = e.tasks ∧ (scheduleLocal e id).woken = e.woken ∧
+    (scheduleLocal e id).alive = e.alive ∧ (scheduleLocal e id).cap = e.cap ∧
+    (scheduleLocal e id).outstanding = e.outstanding ∧ (scheduleLocal e id).inflight = e.inflight := by
+  rcases scheduleLocal_cases e id with he | he <;> rw [he]
+  · exact ⟨rfl, rfl, rfl, rfl, rfl, rfl⟩
+  · have f := makeHot_fields (drainSync e) id
+    have d := drainSync_facts h
+    exact ⟨f.1.trans d.tasks, f.2.1.trans d.woken, f.2.2.1.trans d.alive, f.2.2.2.2.2.1.trans d.cap,
+      f.2.2.2.2.2.2.1.trans d.outstanding, f.2.2.2.2.2.2.2.trans d.inflight⟩
+
+theorem scheduleLocal_mem {e : Exec} (h : Inv e) (id x : Nat) :
+    (x ∈ (scheduleLocal e id).hot ∨ x ∈ (scheduleLocal e id).cold) ↔ (x ∈ e.hot ∨ x ∈ e.cold) := by
+  rcases scheduleLocal_cases e id with he | he <;> rw [he]
+  rw [makeHot_mem, (drainSync_facts h).mem]
+
+theorem scheduleLocal_inMap {e : Exec} (h : Inv e) (id x : Nat) : inMap (scheduleLocal e id) x = inMap e x :=
+  inMap_eq_of_iff _ _ _ _ (scheduleLocal_mem h id x)
+
+theorem scheduleLocal_hot {e : Exec} (h : Inv e) (id : Nat) : ∃ w, (scheduleLocal e id).hot = e.hot ++ w := by
+  rcases scheduleLocal_cases e id with he | he <;> rw [he]
+  · exact ⟨[], by simp⟩
+  · obtain ⟨w1, h1⟩ := makeHot_hot (drainSync e) id
+    obtain ⟨w2, h2, _, _⟩ := (drainSync_facts h).hot
+    exact ⟨w2 ++ w1, by rw [h1, h2]; simp⟩
+
+theorem scheduleLocal_cold_sub {e : Exec} (h : Inv e) (id x : Nat) (hx : x ∈ (scheduleLocal e id).cold) :
+    x ∈ e.cold := by
+  rcases scheduleLocal_cases e id with he | he <;> rw [he] at hx
+  · exact hx
+  · exact (((drainSync_facts h).cold x).mp (makeHot_cold_sub _ _ _ hx)).1
+
+/-- after `schedule()` a task that is in the queue (hence has a valid `shared`) is hot -/
+theorem scheduleLocal_not_cold {e : Exec} (h : Inv e) {id : Nat} {t : TaskSt} (hg : e.get? id = some t) :
+    id ∈ (scheduleLocal e id).cold → False := by
+  intro hc
+  have hcold := scheduleLocal_cold_sub h id id hc
+  have ht := h.t id t hg
+  rw [(inMap_iff e id).mpr (Or.inr hcold)] at ht
+  unfold scheduleLocal at hc
+  rw [hg] at hc
+  simp only [ht.inq_sh rfl, if_true] at hc
+  exact makeHot_not_cold (drainSync_inv h).q.cnd id hc
+
+/-- `Remote::schedule` run to completion, in closed form -/
+theorem remoteSchedule_cases {e : Exec} {id : Nat} {t : TaskSt} (hg : e.get? id = some t) :
+    ((t.word.scheduled = true ∨ t.word.completed = true ∨ t.word.notCancelled = false ∨ t.shared = false) ∧
+      remoteSchedule e id = e.setTask id { t with word := { t.word with scheduled := true, scheduling := false } }) ∨
+    (t.word.scheduled = false ∧ t.word.completed = false ∧ t.word.notCancelled = true ∧ t.shared = true ∧
+      remoteSchedule e id =
+        { e.setTask id { t with word := { t.word with scheduled := true, scheduling := false } } with
+            pending := e.pending + 1, sync := e.sync ++ [id] }) := by
+  unfold remoteSchedule remoteSchedTask
+  rw [hg]
+  cases h1 : t.word.scheduled <;> cases h2 : t.word.completed <;> cases h3 : t.word.notCancelled <;>
+    cases h4 : t.shared <;> simp [h1, h2, h3, h4]
+
+theorem remoteSchedule_none {e : Exec} {id : Nat} (hg : e.get? id = none) : remoteSchedule e id = e := by
+  simp [remoteSchedule, hg]
+
+theorem remoteSchedule_inv {e : Exec} (h : Inv e) (id : Nat) : Inv (remoteSchedule e id) := by
+  cases hg : e.get? id with
+  | none => rw [remoteSchedule_none hg]; exact h
+  | some t =>
+    have ht := h.t id t hg
+    have ht' := sched_bits_inv _ t true false ht
+    rcases remoteSchedule_cases hg with ⟨hearly, he⟩ | ⟨h1, h2, h3, h4, he⟩ <;> rw [he]
+    · refine h.update hg (QStep.refl h.q id) (inMap e id) (by rw [inMap_iff]) ht' _ rfl rfl rfl rfl
+        ?_ ?_ (fun x _ _ hx => hx) h.p
+      · intro hn hc; exact h.c id t hg hn hc
+      · intro _ hc
+        have hin := (inMap_iff e id).mpr (Or.inr hc)
+        rw [hin] at ht
+        rcases hearly with h1 | h1 | h1 | h1
+        · exact h.s id t hg h1 hc
+        · rw [ht.inq_c rfl] at h1; cases h1
+        · exact h.c id t hg h1 hc
+        · rw [ht.inq_sh rfl] at h1; cases h1
+    · refine h.update hg (QStep.refl h.q id) (inMap e id) (by rw [inMap_iff]) ht' _ rfl rfl rfl rfl
+        ?_ ?_ ?_ ?_
+      · intro _ _; exact Or.inl (by simp)
+      · intro _ _; exact Or.inl (by simp)
+      · intro x _ _ hx
+        rcases hx with hx | hx
+        · exact Or.inl (by simp [hx])
+        · exact Or.inr hx
+      · have := h.p
+        cases hi : e.inflight <;> simp [Exec.setTask, hi] at this ⊢ <;> omega
+
+theorem remoteScheduleGuarded_cases (e : Exec) (id : Nat) :
+    remoteScheduleGuarded e id = e ∨
+    remoteScheduleGuarded e id = remoteSchedule { e with outstanding := e.outstanding + 1 } id := by
+  unfold remoteScheduleGuarded; split
+  · exact Or.inr rfl
+  · exact Or.inl rfl
+
+theorem Inv.outstanding {e : Exec} (h : Inv e) (k : Nat) : Inv { e with outstanding := k } :=
+  ⟨⟨h.q.hnd, h.q.cnd, h.q.disj, h.q.hval, h.q.cval⟩, h.t, h.c, h.s, h.dead, h.p⟩
+
+theorem remoteScheduleGuarded_inv {e : Exec} (h : Inv e) (id : Nat) : Inv (remoteScheduleGuarded e id) := by
+  rcases remoteScheduleGuarded_cases e id with he | he <;> rw [he]
+  · exact h
+  · exact remoteSchedule_inv (h.outstanding _) id
+
+/-- what `Remote::schedule` leaves unchanged -/
+theorem remoteSchedule_fields (e : Exec) (id : Nat) :
+    (remoteSchedule e id).hot = e.hot ∧ (remoteSchedule e id).cold = e.cold ∧
+    (remoteSchedule e id).woken = e.woken ∧ (remoteSchedule e id).alive = e.alive ∧
+    (remoteSchedule e id).cap = e.cap ∧ (remoteSchedule e id).outstanding = e.outstanding ∧
+    (remoteSchedule e id).inflight = e.inflight ∧ (remoteSchedule e id).tasks.length = e.tasks.length := by
+  cases hg : e.get? id with
+  | none => rw [remoteSchedule_none hg]; simp
+  | some t =>
+    rcases remoteSchedule_cases hg with ⟨_, he⟩ | ⟨_, _, _, _, he⟩ <;> rw [he] <;> simp [Exec.setTask]
+
+theorem remoteSchedule_get?_ne (e : Exec) {id x : Nat} (hx : x ≠ id) :
+    (remoteSchedule e id).get? x = e.get? x := by
+  cases hg : e.get? id with
+  | none => rw [remoteSchedule_none hg]
+  | some t =>
+    rcases remoteSchedule_cases hg with ⟨_, he⟩ | ⟨_, _, _, _, he⟩ <;> rw [he] <;>
+      simp [Exec.get?, Exec.setTask, List.getElem?_set_ne (Ne.symm hx)]
+
+theorem remoteSchedule_get?_self {e : Exec} {id : Nat} {t : TaskSt} (hg : e.get? id = some t) :
+    (remoteSchedule e id).get? id = some { t with word := { t.word with scheduled := true, scheduling := false } } := by
+  rcases remoteSchedule_cases hg with ⟨_, he⟩ | ⟨_, _, _, _, he⟩ <;> rw [he] <;>
+    simp [Exec.get?, Exec.setTask, List.getElem?_set_self (get?_lt hg)]
+
 /-! ## One loop body of `tick` -/
 
 theorem dropRef_polls (t : TaskSt) : (dropRef t).polls = t.polls := by
@@ -228,11 +648,12 @@ theorem taskDropByExecutor_polls (t : TaskSt) : (taskDropByExecutor t).polls = t
   obtain ⟨⟨s, sg, nsw, hw, c, hr, nc, cnt⟩, st, slot, script, sh, hd, wk, polls, fd, rt, rd, ss, sd, de, uaf, bp⟩ := t
   cases c <;> cases hw <;> cases nsw <;> simp [taskDropByExecutor]
 
-/-- the five things `Task::run` can do to a queued task -/
+/-- the things `Task::run` can do to a queued task -/
 theorem runTask_cases (t : TaskSt) (hb : t.word.completed = false) :
     (t.word.notCancelled = false ∧ runTask t = (droppedTask t, .dropped, none)) ∨
     (t.word.notCancelled = true ∧
       (runTask t = (polledTask t, .pending, none) ∨ runTask t = (polledTask t, .wokeSelf, none) ∨
+       runTask t = (polledTask t, .remoteWoke, none) ∨
        runTask t = (clonedTask t, .pending, none) ∨
        ∃ o, (o = .ready ∨ o = .panic) ∧ t.script.head? = some o ∧ runTask t = (finishedTask t o, .finished,
           if t.word.hasWaker && t.word.notSettingWaker then t.slot else none))) := by
@@ -244,72 +665,259 @@ theorem runTask_cases (t : TaskSt) (hb : t.word.completed = false) :
     · cases o
       · exact Or.inl (runTask_pending t hc hb (Or.inr ⟨r, hs⟩))
       · exact Or.inr (Or.inl (runTask_wakeSelf t hc hb r hs))
-      · exact Or.inr (Or.inr (Or.inl (runTask_clone t hc hb r hs)))
-      · exact Or.inr (Or.inr (Or.inr ⟨.ready, Or.inl rfl, by simp, runTask_ready t hc hb _ r hs (Or.inl rfl)⟩))
-      · exact Or.inr (Or.inr (Or.inr ⟨.panic, Or.inr rfl, by simp, runTask_ready t hc hb _ r hs (Or.inr rfl)⟩))
+      · exact Or.inr (Or.inr (Or.inr (Or.inl (runTask_clone t hc hb r hs))))
+      · exact Or.inr (Or.inr (Or.inl (runTask_remote t hc hb r hs)))
+      · exact Or.inr (Or.inr (Or.inr (Or.inr ⟨.ready, Or.inl rfl, by simp, runTask_ready t hc hb _ r hs (Or.inl rfl)⟩)))
+      · exact Or.inr (Or.inr (Or.inr (Or.inr ⟨.panic, Or.inr rfl, by simp, runTask_ready t hc hb _ r hs (Or.inr rfl)⟩)))
 
-theorem get?_setTask_self {e : Exec} {id : Nat} {t : TaskSt} (t' : TaskSt) (h : e.get? id = some t) :
-    (e.setTask id t').get? id = some t' := by
-  simp [Exec.get?, Exec.setTask, List.getElem?_set_self (get?_lt h)]
+/-- `a` is `b` up to the SCHEDULED / SCHEDULING bits -/
+def SameUpToSched (a b : TaskSt) : Prop :=
+  ∃ x y, a = { b with word := { b.word with scheduled := x, scheduling := y } }
 
-theorem get?_setTask_ne (e : Exec) {id x : Nat} (t' : TaskSt) (h : x ≠ id) :
-    (e.setTask id t').get? x = e.get? x := by
-  simp [Exec.get?, Exec.setTask, List.getElem?_set_ne (Ne.symm h)]
+theorem SameUpToSched.refl (t : TaskSt) : SameUpToSched t t := ⟨t.word.scheduled, t.word.scheduling, rfl⟩
 
-/-- one loop body of `tick` on the head `id` of the hot list, in closed form -/
-theorem tickStep_head {e : Exec} (h : Inv e) {id : Nat} {rest : List Nat} (hh : e.hot = id :: rest) :
-    ∃ t, e.get? id = some t ∧ TInv true t ∧
-      tickStep e id =
-        ({ tasks := e.tasks.set id (runTask t).1,
-           hot := rest ++ (if (runTask t).2.1 = .wokeSelf then [id] else []),
-           cold := e.cold ++ (if (runTask t).2.1 = .pending then [id] else []),
-           woken := e.woken ++ (if (runTask t).2.1 = .finished then (runTask t).2.2.toList else []),
-           alive := e.alive }, decide ((runTask t).2.1 ≠ .dropped)) := by
-  obtain ⟨t, hg, ht⟩ := h.get_of_mem (id := id) (Or.inl (by simp [hh]))
-  refine ⟨t, hg, ht, ?_⟩
+/-- facts about one loop body on the head of the hot list -/
+structure StepFacts (e : Exec) (id : Nat) (rest : List Nat) (t : TaskSt) (s : Exec × Bool) : Prop where
+  inv : Inv s.1
+  hot : ∃ w, s.1.hot = rest ++ w
+  frame : ∀ x, x ≠ id → s.1.get? x = e.get? x
+  polled : s.2 = t.word.notCancelled
+  gone : s.2 = false → inMap s.1 id = false
+  taskEq : ∃ t', s.1.get? id = some t' ∧
+    (t' = (runTask t).1 ∨ ((runTask t).2.1 = .remoteWoke ∧ SameUpToSched t' (runTask t).1))
+  polls : (runTask t).1.polls = t.polls + (if s.2 then 1 else 0)
+  live : inMap s.1 id = true → (runTask t).1.word.notCancelled = true
+  sub : ∀ x, inMap s.1 x = true → inMap e x = true
+  keep : ∀ x, x ≠ id → inMap e x = true → inMap s.1 x = true
+  fields : s.1.alive = e.alive ∧ s.1.inflight = e.inflight ∧ s.1.cap = e.cap
+
+theorem StepFacts.task {e : Exec} {id : Nat} {rest : List Nat} {t : TaskSt} {s : Exec × Bool}
+    (sf : StepFacts e id rest t s) :
+    ∃ t', s.1.get? id = some t' ∧ t'.polls = t.polls + (if s.2 then 1 else 0) ∧
+      (inMap s.1 id = true → t'.word.notCancelled = true) := by
+  obtain ⟨t', hg, he | ⟨_, x, y, he⟩⟩ := sf.taskEq
+  · exact ⟨t', hg, by rw [he]; exact sf.polls, fun hi => by rw [he]; exact sf.live hi⟩
+  · exact ⟨t', hg, by rw [he]; exact sf.polls, fun hi => by rw [he]; exact sf.live hi⟩
+
+/-- the state after `make_cold(id)` and a poll of `id` that returned Pending -/
+theorem pend_facts {e : Exec} (h : Inv e) {id : Nat} {rest : List Nat} (hh : e.hot = id :: rest)
+    {t : TaskSt} (hg : e.get? id = some t) (t' : TaskSt) (ht' : TInv true t')
+    (hn : t'.word.notCancelled = true) (hs : t'.word.scheduled = false) :
+    Inv ((makeCold e id).setTask id t') ∧ ((makeCold e id).setTask id t').hot = rest ∧
+    ((makeCold e id).setTask id t').get? id = some t' ∧
+    (∀ x, x ≠ id → ((makeCold e id).setTask id t').get? x = e.get? x) ∧
+    (∀ x, inMap ((makeCold e id).setTask id t') x = inMap e x) ∧
+    (((makeCold e id).setTask id t').alive = e.alive ∧ ((makeCold e id).setTask id t').inflight = e.inflight ∧
+      ((makeCold e id).setTask id t').cap = e.cap) := by
+  have hnd := h.q.hnd
+  rw [hh, List.nodup_cons] at hnd
+  have hmc : makeCold e id = { e with hot := rest, cold := e.cold ++ [id] } := by simp [makeCold, hh]
+  rw [hmc]
+  refine ⟨?_, rfl, by simp [Exec.get?, Exec.setTask, List.getElem?_set_self (get?_lt hg)], ?_, ?_, ⟨rfl, rfl, rfl⟩⟩
+  · refine h.update hg (QStep.tick h.q hh false true (by simp)) true (by simp) ht' _ rfl
+      (by simp [Exec.setTask]) (by simp [Exec.setTask]) rfl ?_ ?_ (fun x _ _ hx => hx) h.p
+    · intro hc; rw [hn] at hc; cases hc
+    · intro hc; rw [hs] at hc; cases hc
+  · intro x hx; simp [Exec.get?, Exec.setTask, List.getElem?_set_ne (Ne.symm hx)]
+  · intro x
+    apply inMap_eq_of_iff
+    simp only [Exec.setTask, hh, List.mem_append, List.mem_cons, List.mem_singleton, List.not_mem_nil, or_false]
+    constructor
+    · rintro (h1 | h1 | h1)
+      · exact Or.inl (Or.inr h1)
+      · exact Or.inr h1
+      · exact Or.inl (Or.inl h1)
+    · rintro ((h1 | h1) | h1)
+      · exact Or.inr (Or.inr h1)
+      · exact Or.inl h1
+      · exact Or.inr (Or.inl h1)
+
+/-- the state after `make_cold(id)`, `Task::run` = Ready, `Task::drop`, `queue.remove(id)` -/
+theorem removed_facts {e : Exec} (h : Inv e) {id : Nat} {rest : List Nat} (hh : e.hot = id :: rest)
+    {t : TaskSt} (hg : e.get? id = some t) (t' : TaskSt) (ht' : TInv false t') (wk : List Nat) :
+    ({ removeTask ((makeCold e id).setTask id t') id with woken := wk } : Exec) =
+      { e with tasks := e.tasks.set id t', hot := rest, woken := wk } ∧
+    Inv ({ e with tasks := e.tasks.set id t', hot := rest, woken := wk } : Exec) := by
   have hnd := h.q.hnd
   rw [hh, List.nodup_cons] at hnd
   have hnc : id ∉ e.cold := fun hc => h.q.disj id (by simp [hh]) hc
-  have hmc : makeCold e id = { e with hot := rest, cold := e.cold ++ [id] } := by
-    simp [makeCold, hh]
-  have hg' : (makeCold e id).get? id = some t := by rw [hmc]; exact hg
-  have hsh : (polledTask t).shared = true := by simp [polledTask, ht.inq_sh rfl]
-  simp only [tickStep, runOne, hg']
-  rcases runTask_cases t (ht.inq_c rfl) with ⟨_, hr⟩ | ⟨_, hr | hr | hr | ⟨o, _, _, hr⟩⟩ <;> rw [hr] <;>
-    simp [hmc, removeTask, Exec.setTask, hnd.1, hnc, List.erase_append_right, scheduleLocal, Exec.get?,
-      List.getElem?_set_self (get?_lt hg), hsh, makeHot]
+  have hmc : makeCold e id = { e with hot := rest, cold := e.cold ++ [id] } := by simp [makeCold, hh]
+  refine ⟨by simp [hmc, removeTask, Exec.setTask, hnd.1, hnc, List.erase_append_right], ?_⟩
+  refine h.update hg (QStep.tick h.q hh false false (by simp)) false (by simp [hnd.1, hnc]) ht' _ rfl (by simp)
+    (by simp) rfl ?_ ?_ (fun x _ _ hx => hx) h.p
+  · intro _ hc; simp at hc; exact absurd hc hnc
+  · intro _ hc; simp at hc; exact absurd hc hnc
 
 /-- what `Task::run` guarantees about a queued task, by kind of outcome -/
 theorem runTask_spec (t : TaskSt) (ht : TInv true t) :
     (((runTask t).2.1 = .dropped ∨ (runTask t).2.1 = .finished) → TInv false (runTask t).1) ∧
-    (((runTask t).2.1 = .pending ∨ (runTask t).2.1 = .wokeSelf) →
-        TInv true (runTask t).1 ∧ (runTask t).1.word.notCancelled = true) ∧
+    (((runTask t).2.1 = .pending ∨ (runTask t).2.1 = .wokeSelf ∨ (runTask t).2.1 = .remoteWoke) →
+        TInv true (runTask t).1 ∧ (runTask t).1.word.notCancelled = true ∧
+        (runTask t).1.word.scheduled = false) ∧
     ((runTask t).2.1 = .dropped ↔ t.word.notCancelled = false) ∧
     ((runTask t).2.1 ≠ .dropped → (runTask t).1.polls = t.polls + 1) ∧
     ((runTask t).2.1 = .dropped → (runTask t).1.polls = t.polls) := by
-  rcases runTask_cases t (ht.inq_c rfl) with ⟨hc, hr⟩ | ⟨hc, hr | hr | hr | ⟨o, _, _, hr⟩⟩ <;> rw [hr] <;> simp [hc]
+  rcases runTask_cases t (ht.inq_c rfl) with ⟨hc, hr⟩ | ⟨hc, hr | hr | hr | hr | ⟨o, _, _, hr⟩⟩ <;> rw [hr] <;> simp [hc]
   · exact ⟨droppedTask_inv t ht, by simp [droppedTask, dropRef_polls, taskDropByExecutor_polls]⟩
-  · exact ⟨⟨polledTask_inv t ht, by simp [polledTask, hc]⟩, by simp [polledTask]⟩
-  · exact ⟨⟨polledTask_inv t ht, by simp [polledTask, hc]⟩, by simp [polledTask]⟩
-  · exact ⟨⟨clonedTask_inv t ht, by simp [clonedTask, polledTask, hc]⟩, by simp [clonedTask, polledTask]⟩
+  · exact ⟨⟨polledTask_inv t ht, by simp [polledTask, hc], by simp [polledTask]⟩, by simp [polledTask]⟩
+  · exact ⟨⟨polledTask_inv t ht, by simp [polledTask, hc], by simp [polledTask]⟩, by simp [polledTask]⟩
+  · exact ⟨⟨polledTask_inv t ht, by simp [polledTask, hc], by simp [polledTask]⟩, by simp [polledTask]⟩
+  · exact ⟨⟨clonedTask_inv t ht, by simp [clonedTask, polledTask, hc], by simp [clonedTask, polledTask]⟩,
+      by simp [clonedTask, polledTask]⟩
   · exact ⟨finishedTask_inv t o ht, by simp [finishedTask, dropRef_polls, taskDropByExecutor_polls]⟩
 
-theorem tickStep_inv {e : Exec} (h : Inv e) {id : Nat} {rest : List Nat} (hh : e.hot = id :: rest) :
-    Inv (tickStep e id).1 := by
-  obtain ⟨t, hg, ht, heq⟩ := tickStep_head h hh
+/-- facts of a loop body whose poll returned Pending, possibly followed by a (local or remote) schedule -/
+theorem StepFacts.ofPend {e : Exec} (h : Inv e) {id : Nat} {rest : List Nat} (hh : e.hot = id :: rest)
+    {t : TaskSt} (hg : e.get? id = some t) (ht : TInv true t)
+    (hk : (runTask t).2.1 = .pending ∨ (runTask t).2.1 = .wokeSelf ∨ (runTask t).2.1 = .remoteWoke)
+    (e2 : Exec) (hinv : Inv e2)
+    (hhot : ∃ w, e2.hot = ((makeCold e id).setTask id (runTask t).1).hot ++ w)
+    (hfr : ∀ x, x ≠ id → e2.get? x = ((makeCold e id).setTask id (runTask t).1).get? x)
+    (hid : ∃ t', e2.get? id = some t' ∧
+      (t' = (runTask t).1 ∨ ((runTask t).2.1 = .remoteWoke ∧ SameUpToSched t' (runTask t).1)))
+    (hmap : ∀ x, inMap e2 x = inMap ((makeCold e id).setTask id (runTask t).1) x)
+    (hf : e2.alive = ((makeCold e id).setTask id (runTask t).1).alive ∧
+          e2.inflight = ((makeCold e id).setTask id (runTask t).1).inflight ∧
+          e2.cap = ((makeCold e id).setTask id (runTask t).1).cap) :
+    StepFacts e id rest t (e2, true) := by
   obtain ⟨s1, s2, s3, s4, s5⟩ := runTask_spec t ht
+  obtain ⟨st, sn, ss⟩ := s2 hk
+  obtain ⟨p1, p2, p3, p4, p5, p6⟩ := pend_facts h hh hg (runTask t).1 st sn ss
+  have hnd : (runTask t).2.1 ≠ .dropped := by
+    rcases hk with hk | hk | hk <;> rw [hk] <;> simp
+  have hnc : t.word.notCancelled = true := by
+    cases hn : t.word.notCancelled
+    · exact absurd (s3.mpr hn) hnd
+    · rfl
+  refine ⟨hinv, ?_, ?_, ?_, ?_, hid, ?_, ?_, ?_, ?_, ?_⟩
+  · obtain ⟨w, hw⟩ := hhot; exact ⟨w, by rw [hw, p2]⟩
+  · intro x hx; rw [hfr x hx, p4 x hx]
+  · simp [hnc]
+  · intro hf'; cases hf'
+  · simp [s4 hnd]
+  · intro _; exact sn
+  · intro x hx; rw [hmap x, p5 x] at hx; exact hx
+  · intro x _ hx; rw [hmap x, p5 x]; exact hx
+  · exact ⟨hf.1.trans p6.1, hf.2.1.trans p6.2.1, hf.2.2.trans p6.2.2⟩
+
+/-- facts of a loop body that removed the task (cancelled, or the future finished) -/
+theorem StepFacts.ofRemoved {e : Exec} (h : Inv e) {id : Nat} {rest : List Nat} (hh : e.hot = id :: rest)
+    {t : TaskSt} (hg : e.get? id = some t) (ht : TInv true t)
+    (hk : (runTask t).2.1 = .dropped ∨ (runTask t).2.1 = .finished) (wk : List Nat) :
+    StepFacts e id rest t
+      (({ e with tasks := e.tasks.set id (runTask t).1, hot := rest, woken := wk } : Exec),
+        decide ((runTask t).2.1 ≠ .dropped)) := by
+  obtain ⟨s1, s2, s3, s4, s5⟩ := runTask_spec t ht
+  have hinv := (removed_facts h hh hg (runTask t).1 (s1 hk) wk).2
   have hnd := h.q.hnd
   rw [hh, List.nodup_cons] at hnd
   have hnc : id ∉ e.cold := fun hc => h.q.disj id (by simp [hh]) hc
-  rw [heq]
-  cases hk : (runTask t).2.1 <;> rw [hk] at s1 s2 <;> simp only [hk]
-  · exact h.update hg (QStep.tick h.q hh false false (by simp)) false (by simp [hnd.1, hnc]) (s1 (Or.inl rfl))
-      (by simp [hnc]) _ rfl (by simp) (by simp) rfl
-  · exact h.update hg (QStep.tick h.q hh false true (by simp)) true (by simp) (s2 (Or.inl rfl)).1
-      (by simp [(s2 (Or.inl rfl)).2]) _ rfl (by simp) (by simp) rfl
-  · exact h.update hg (QStep.tick h.q hh true false (by simp)) true (by simp) (s2 (Or.inr rfl)).1
-      (by simp [(s2 (Or.inr rfl)).2]) _ rfl (by simp) (by simp) rfl
-  · exact h.update hg (QStep.tick h.q hh false false (by simp)) false (by simp [hnd.1, hnc]) (s1 (Or.inr rfl))
-      (by simp [hnc]) _ rfl (by simp) (by simp) rfl
+  have hout : inMap ({ e with tasks := e.tasks.set id (runTask t).1, hot := rest, woken := wk } : Exec) id = false := by
+    rw [inMap_false_iff]; simp [hnd.1, hnc]
+  refine ⟨hinv, ⟨[], by simp⟩, ?_, ?_, fun _ => hout, ⟨_, ?_, Or.inl rfl⟩, ?_, ?_, ?_, ?_, ⟨rfl, rfl, rfl⟩⟩
+  · intro x hx; simp [Exec.get?, List.getElem?_set_ne (Ne.symm hx)]
+  · cases hn : t.word.notCancelled
+    · simp [s3.mpr hn]
+    · have : (runTask t).2.1 ≠ .dropped := fun hd => by rw [s3.mp hd] at hn; cases hn
+      simp [this]
+  · simp [Exec.get?, List.getElem?_set_self (get?_lt hg)]
+  · by_cases hd : (runTask t).2.1 = .dropped
+    · simp [hd, s5 hd]
+    · simp [hd, s4 hd]
+  · intro hi; rw [hout] at hi; cases hi
+  · intro x hx
+    rw [inMap_iff] at hx ⊢
+    simp only at hx
+    rw [hh]
+    rcases hx with hx | hx
+    · exact Or.inl (by simp [hx])
+    · exact Or.inr hx
+  · intro x hne hx
+    rw [inMap_iff] at hx ⊢
+    simp only
+    rw [hh] at hx
+    rcases hx with hx | hx
+    · simp at hx
+      rcases hx with hx | hx
+      · exact absurd hx hne
+      · exact Or.inl hx
+    · exact Or.inr hx
+
+theorem tickStep_facts {e : Exec} (h : Inv e) {id : Nat} {rest : List Nat} (hh : e.hot = id :: rest) :
+    ∃ t, e.get? id = some t ∧ TInv true t ∧ StepFacts e id rest t (tickStep e id) := by
+  obtain ⟨t, hg, ht⟩ := h.get_of_mem (id := id) (Or.inl (by simp [hh]))
+  refine ⟨t, hg, ht, ?_⟩
+  have hmc : makeCold e id = { e with hot := rest, cold := e.cold ++ [id] } := by simp [makeCold, hh]
+  have hg' : (makeCold e id).get? id = some t := by rw [hmc]; exact hg
+  obtain ⟨s1, s2, s3, s4, s5⟩ := runTask_spec t ht
+  simp only [tickStep, runOne, hg']
+  rcases hr : runTask t with ⟨t', k, w⟩
+  have hr1 : (runTask t).1 = t' := by rw [hr]
+  have hr2 : (runTask t).2.1 = k := by rw [hr]
+  cases k <;> simp only
+  · -- dropped
+    have hk : (runTask t).2.1 = .dropped ∨ (runTask t).2.1 = .finished := Or.inl hr2
+    have := StepFacts.ofRemoved h hh hg ht hk e.woken
+    have heq := (removed_facts h hh hg t' (hr1 ▸ s1 hk) e.woken).1
+    rw [hr1, hr2] at this
+    have he : removeTask ((makeCold e id).setTask id t') id =
+        ({ e with tasks := e.tasks.set id t', hot := rest, woken := e.woken } : Exec) := by
+      rw [← heq]; simp [hmc, removeTask, Exec.setTask]
+    rw [he]; simpa using this
+  · -- pending
+    have hk : (runTask t).2.1 = .pending ∨ (runTask t).2.1 = .wokeSelf ∨ (runTask t).2.1 = .remoteWoke :=
+      Or.inl hr2
+    obtain ⟨st, sn, ss⟩ := s2 hk
+    have pf := pend_facts h hh hg (runTask t).1 st sn ss
+    have := StepFacts.ofPend h hh hg ht hk _ pf.1 ⟨[], by simp⟩ (fun _ _ => rfl)
+      ⟨_, pf.2.2.1, Or.inl rfl⟩ (fun _ => rfl) ⟨rfl, rfl, rfl⟩
+    rw [hr1] at this; exact this
+  · -- wokeSelf
+    have hk : (runTask t).2.1 = .pending ∨ (runTask t).2.1 = .wokeSelf ∨ (runTask t).2.1 = .remoteWoke :=
+      Or.inr (Or.inl hr2)
+    obtain ⟨st, sn, ss⟩ := s2 hk
+    have pf := pend_facts h hh hg (runTask t).1 st sn ss
+    have f := scheduleLocal_fields pf.1 id
+    have := StepFacts.ofPend h hh hg ht hk (scheduleLocal ((makeCold e id).setTask id (runTask t).1) id)
+      (scheduleLocal_inv pf.1 id) (scheduleLocal_hot pf.1 id) (fun x _ => scheduleLocal_get? pf.1 id x)
+      ⟨_, by rw [scheduleLocal_get? pf.1 id id]; exact pf.2.2.1, Or.inl rfl⟩
+      (fun x => scheduleLocal_inMap pf.1 id x) ⟨f.2.2.1, f.2.2.2.2.2, f.2.2.2.1⟩
+    rw [hr1] at this; exact this
+  · -- remoteWoke
+    have hk : (runTask t).2.1 = .pending ∨ (runTask t).2.1 = .wokeSelf ∨ (runTask t).2.1 = .remoteWoke :=
+      Or.inr (Or.inr hr2)
+    obtain ⟨st, sn, ss⟩ := s2 hk
+    have pf := pend_facts h hh hg (runTask t).1 st sn ss
+    have hfin : StepFacts e id rest t (remoteScheduleGuarded ((makeCold e id).setTask id (runTask t).1) id, true) := by
+      rcases remoteScheduleGuarded_cases ((makeCold e id).setTask id (runTask t).1) id with he | he
+      · rw [he]
+        exact StepFacts.ofPend h hh hg ht hk _ pf.1 ⟨[], by simp⟩ (fun _ _ => rfl)
+          ⟨_, pf.2.2.1, Or.inl rfl⟩ (fun _ => rfl) ⟨rfl, rfl, rfl⟩
+      · have hinv := remoteScheduleGuarded_inv pf.1 id
+        rw [he] at hinv ⊢
+        have f := remoteSchedule_fields
+          ({ (makeCold e id).setTask id (runTask t).1 with
+              outstanding := ((makeCold e id).setTask id (runTask t).1).outstanding + 1 } : Exec) id
+        have hgp : ({ (makeCold e id).setTask id (runTask t).1 with
+              outstanding := ((makeCold e id).setTask id (runTask t).1).outstanding + 1 } : Exec).get? id
+              = some (runTask t).1 := pf.2.2.1
+        refine StepFacts.ofPend h hh hg ht hk _ hinv ⟨[], by rw [f.1]; simp⟩
+          (fun x hx => by rw [remoteSchedule_get?_ne _ hx]; rfl)
+          ⟨_, remoteSchedule_get?_self hgp, Or.inr ⟨hr2 ▸ rfl, true, false, rfl⟩⟩ ?_ ⟨f.2.2.2.1, f.2.2.2.2.2.2.1, f.2.2.2.2.1⟩
+        intro x
+        apply inMap_eq_of_iff
+        rw [f.1, f.2.1]
+    rw [hr1] at hfin; exact hfin
+  · -- finished
+    have hk : (runTask t).2.1 = .dropped ∨ (runTask t).2.1 = .finished := Or.inr hr2
+    have := StepFacts.ofRemoved h hh hg ht hk ((makeCold e id).woken ++ w.toList)
+    have heq := (removed_facts h hh hg t' (hr1 ▸ s1 hk) ((makeCold e id).woken ++ w.toList)).1
+    rw [hr1, hr2] at this
+    rw [heq]; simpa using this
+
+theorem tickStep_inv {e : Exec} (h : Inv e) {id : Nat} {rest : List Nat} (hh : e.hot = id :: rest) :
+    Inv (tickStep e id).1 := by
+  obtain ⟨t, _, _, sf⟩ := tickStep_facts h hh
+  exact sf.inv
 
 end Compio.Executor
